@@ -6,7 +6,6 @@ import (
 	"fmt"
 	"io"
 	"math"
-	"strconv"
 	"strings"
 	"sync"
 	"sync/atomic"
@@ -246,30 +245,40 @@ func timeoutFromHeaders(headers metadata.MD) (time.Duration, bool) {
 		return 0, false
 	}
 	timeoutStr := vals[len(vals)-1]
-	if len(timeoutStr) < 2 {
+	// Per the gRPC wire protocol, the value is at most 8 ASCII digits
+	// followed by a single character for the unit.
+	if len(timeoutStr) < 2 || len(timeoutStr) > 9 {
 		return 0, false
 	}
-	timeout, err := strconv.Atoi(timeoutStr[:len(timeoutStr)-1])
-	if err != nil {
-		return 0, false
+	var timeout int64
+	for _, ch := range []byte(timeoutStr[:len(timeoutStr)-1]) {
+		if ch < '0' || ch > '9' {
+			return 0, false
+		}
+		timeout = timeout*10 + int64(ch-'0')
 	}
-	duration := time.Duration(timeout)
+	var unit time.Duration
 	switch timeoutStr[len(timeoutStr)-1] {
 	case 'H':
-		return duration * time.Hour, true
+		unit = time.Hour
 	case 'M':
-		return duration * time.Minute, true
+		unit = time.Minute
 	case 'S':
-		return duration * time.Second, true
+		unit = time.Second
 	case 'm':
-		return duration * time.Millisecond, true
+		unit = time.Millisecond
 	case 'u':
-		return duration * time.Microsecond, true
+		unit = time.Microsecond
 	case 'n':
-		return duration * time.Nanosecond, true
+		unit = time.Nanosecond
 	default:
 		return 0, false
 	}
+	if timeout > math.MaxInt64/int64(unit) {
+		// too large to represent (only possible with hours): saturate
+		return time.Duration(math.MaxInt64), true
+	}
+	return time.Duration(timeout) * unit, true
 }
 
 func (s *tunnelServer) getStream(streamID int64) (*tunnelServerStream, error) {
